@@ -15,7 +15,7 @@ RULE = ("seeded asymmetric random models x K plan x random augmented vectors z: 
 MEASURE = "distinct (compiled-evaluator bitmask before the op, op kind) pairs"
 COMPONENTS = dict(sc.COMPONENTS)
 ASSUMPTIONS = ["documented layout: by parameter = vec_F(S) (column-major over the n x p matrix), by state = row-major",
-               "models with at least one parameter; the p=0 initial-value variant is exercised on parameter-free catalogue ODEs"]
+               "10% of the algebraic runs use a parameter-free model and exercise the p=0 branch of the initial-value system"]
 
 
 def generate(seed, tier):
@@ -24,13 +24,18 @@ def generate(seed, tier):
     if rng.random() < 0.25:
         from ..engines import solver
         return solver.gen_sens_case(S, tier, PROP)
-    model, names, params = sc.asym_model(rng, p=rng.randint(1, 4), n=rng.choice([1, 2, 2, 3, 3, 4]), allow_range=False)
+    nopar = rng.random() < 0.1
+    if nopar:
+        model, names, params = gen.gen_model(rng, stochastic=False, p=0, n=rng.choice([1, 2, 3]), m=rng.randint(1, 3),
+                                             with_derived=False, with_odes=False, allow_range=False)
+    else:
+        model, names, params = sc.asym_model(rng, p=rng.randint(1, 4), n=rng.choice([1, 2, 2, 3, 3, 4]), allow_range=False)
     kenv, batch = sc.k_plan(S("faults"), tier)
     n, p = len(names), len(params)
     ops = []
     for _ in range(rng.randint(2, 4)):
         x, t, _ = gen.gen_point(rng, names, [])
-        kind = rng.choice(["by_param", "by_state", "iv"])
+        kind = "iv" if nopar else rng.choice(["by_param", "by_state", "iv"])
         s = [round(rng.uniform(-2, 2), 4) for _ in range(n * p)]
         z = list(x) + s
         op = {"op": "sens", "t": t, "by_state": kind == "by_state", "iv": kind == "iv"}
@@ -45,7 +50,9 @@ def generate(seed, tier):
 def execute(case):
     if case.get("engine") == "solver":
         from ..engines import solver
-        return solver.execute(case, keep_prefix=("C13.",))
+        res = solver.execute(case, keep_prefix=("C13.",))
+        res["nontrivial"] = bool(res["stats"].get("sens_integrations", 0))
+        return res
     res = session.execute(case, PROP)
     res["nontrivial"] = len(case["model"]["states"]) >= 2 or len(case["model"]["params"]) >= 2
     return res
